@@ -185,7 +185,7 @@ Step(S, e) ==
               IfBad((T.thrown # 0 /\ NoFaultyCtx(P)) => (IsX(e.v) /\ e.u = T.thrown), "C02.prop") \cup
               (IF S.ref # <<>> THEN IfBad(e.v = S.ref[f], "C01.done") ELSE {}) \cup
               \* every context the task entered has been left, ending with a pause
-              IfBad(\A c \in DOMAIN S.ctx : S.ctx[c].owner = f /\ S.ctx[c].ty # "nonasync" /\ NoFaultyCtx(P)
+              IfBad(\A c \in DOMAIN S.ctx : S.ctx[c].owner = f /\ S.ctx[c].ty \notin {"nonasync", "cleanup"} /\ NoFaultyCtx(P)
                                             => S.ctx[c].st = "closed", "C06.alt.end") \cup
               \* a NonAsyncContext fails the task only if it had to be suspended for a flush inside it
               IfBad((e.v = VX(70000) /\ \A g \in DOMAIN S.fut : S.fut[g].u # e.u) => (T.st = "waiting" /\ f \in Blocked(S) /\
@@ -297,7 +297,7 @@ Step(S, e) ==
     [] e.e = "Exit" ->
         IF e.a \notin DOMAIN S.ctx THEN [S |-> S, bad |-> {"H.unknown_ctx"}] ELSE
         LET C == S.ctx[e.a] IN
-        IF C.ty = "nonasync" THEN [S |-> [S EXCEPT !.ctx[e.a].st = "closed"], bad |-> {}]
+        IF C.ty \in {"nonasync", "cleanup"} THEN [S |-> [S EXCEPT !.ctx[e.a].st = "closed"], bad |-> {}]
         ELSE [S |-> [S EXCEPT !.ctx[e.a].st = IF C.st = "on" THEN "exiting" ELSE "exiting_off"],
               bad |-> IfBad(NoFaultyCtx(P) => C.st = "on", "C06.alt.exit")]
 
@@ -358,6 +358,10 @@ Step(S, e) ==
                           IfBad(AcceptsMaximal(P, root, S.fl) => Accepts(P, root, S.fl), "C05.rounds")
                      ELSE {}) \cup
                     IfBad(NoFaultyCtx(P) => S.cstk = <<>>, "C06.alt.end")]
+
+    [] e.e = "IVal" ->          \* item.value() called from a body returned: the outcome of that very item
+        [S |-> S,
+         bad |-> IfBad(FutDone(S, e.a) /\ S.fut[e.a].v = e.v /\ (IsX(e.v) => S.fut[e.a].u = e.u), "C01.ival")]
 
     [] e.e = "DedupCall" ->
         \* task e.t called the deduplicated function for call site e.a and was handed task e.b
